@@ -725,12 +725,19 @@ def _lobe_clamp_exact(ctx: Ctx, sl):
     rd = ReachingDefs(sl.node)
     nz = Normalizer()
     sites = []
+    # the clamped reach stays a name (it is what the rule is about); a named stop `num_kept = NN - offs` is looked through
+    from sa.inline import Inliner as _InlLC
+    clamped_names = {d.name for d in rd.defs if d.kind == "assign" and isinstance(d.value, ast.Call) and call_name(d.value) == "min"}
+    cap_names = {x.id for d in rd.defs if d.kind == "assign" and isinstance(d.value, ast.Call) and call_name(d.value) == "min"
+                 for x in ast.walk(d.value) if isinstance(x, ast.Name)}
+    inl_lc = _InlLC(sl.node, rd, keep=clamped_names | cap_names)
     for n in own_nodes(sl.node):
-        if not isinstance(n, ast.Subscript) or not isinstance(n.slice, ast.Slice) or n.slice.lower is not None:
+        if not isinstance(n, ast.Subscript) or not isinstance(n.slice, ast.Slice) or n.slice.lower is not None or n.slice.upper is None:
             continue
-        up = n.slice.upper
+        up = inl_lc.expand(n.slice.upper)
         if not (isinstance(up, ast.BinOp) and isinstance(up.op, ast.Sub) and isinstance(up.right, ast.Name)):
             continue
+        n = ast.copy_location(ast.Subscript(value=n.value, slice=ast.Slice(lower=None, upper=up, step=None), ctx=ast.Load()), n)
         for d in rd.defs_of(up.right):
             v = d.value
             if d.kind == "assign" and isinstance(v, ast.Call) and call_name(v) == "min" and len(v.args) == 2:
